@@ -14,7 +14,9 @@ The tree format is the one of harness/props/c19.py: {'name', 'files': [{'name','
 'dirs': [...]}; `_defs` is filled by `ast_defs` (list of `Def`).
 """
 import ast
+import keyword
 import re
+import unicodedata
 
 STEMS = ['foo', 'conf', 'util', 'data', 'log', 'zed']
 NEUTRAL_FILES = ['m.py', 'n.py', 'k.py', 'x.txt', 'main.py', 'st.pyi']
@@ -47,16 +49,39 @@ def ast_defs(code):
     definitions of the file (jedi's search leaves them out on purpose, the oracle does not judge
     them); attribute / subscript targets define no name."""
     tree = ast.parse(code)
-    lines = code.split('\n')
+    lines = re.split(r'\r\n|\n|\r', code)
+    if lines and lines[0].startswith('\ufeff'):
+        lines[0] = lines[0][1:]           # a BOM is not part of line 1 (ast strips it as well)
     out = []
 
+    def cp(lineno, byte_col):
+        """ast counts columns in UTF-8 bytes, jedi (and the property's `spelled`) in code points"""
+        line = lines[lineno - 1]
+        if line.isascii():
+            return byte_col
+        return len(line.encode('utf-8')[:byte_col].decode('utf-8'))
+
+    def spelling(lineno, col, normal):
+        """the identifier as it is SPELLED in the file at that place: ast reports the NFKC normal
+        form (PEP 3131), the property speaks about spelling"""
+        line = lines[lineno - 1]
+        end = col + 1
+        while end < len(line) and ('a' + line[end]).isidentifier():
+            end += 1
+        src = line[col:end]
+        assert unicodedata.normalize('NFKC', src) == normal, (src, normal, lineno, col)
+        return src
+
+    def add(name, type_, lineno, col, top):
+        out.append(Def(spelling(lineno, col, name), type_, lineno, col, top))
+
     def head_col(node):
-        m = _HEAD.match(lines[node.lineno - 1], node.col_offset)
+        m = _HEAD.match(lines[node.lineno - 1], cp(node.lineno, node.col_offset))
         return m.end()
 
     def target(t, top):
         if isinstance(t, ast.Name):
-            out.append(Def(t.id, 'statement', t.lineno, t.col_offset, top))
+            add(t.id, 'statement', t.lineno, cp(t.lineno, t.col_offset), top)
         elif isinstance(t, (ast.Tuple, ast.List)):
             for e in t.elts:
                 target(e, top)
@@ -66,14 +91,14 @@ def ast_defs(code):
     def visit(body, top):
         for node in body:
             if isinstance(node, (ast.FunctionDef, ast.AsyncFunctionDef)):
-                out.append(Def(node.name, 'function', node.lineno, head_col(node), top))
+                add(node.name, 'function', node.lineno, head_col(node), top)
                 a = node.args
                 for p in a.posonlyargs + a.args + ([a.vararg] if a.vararg else []) + a.kwonlyargs \
                         + ([a.kwarg] if a.kwarg else []):
-                    out.append(Def(p.arg, 'param', p.lineno, p.col_offset, False))
+                    add(p.arg, 'param', p.lineno, cp(p.lineno, p.col_offset), False)
                 visit(node.body, False)
             elif isinstance(node, ast.ClassDef):
-                out.append(Def(node.name, 'class', node.lineno, head_col(node), top))
+                add(node.name, 'class', node.lineno, head_col(node), top)
                 visit(node.body, False)
             elif isinstance(node, ast.Assign):
                 for t in node.targets:
@@ -104,9 +129,39 @@ def ast_defs(code):
 
 # ----------------------------------------------------------------- names
 
+def _ident_ok(n):
+    return n.isidentifier() and not keyword.iskeyword(n)
+
+
 def idents_of(stem):
-    return [stem, stem, stem + '_x', stem + '_dir', stem + 's', stem.capitalize(), stem.upper(),
-            'my_' + stem, stem[:2] + 'q']
+    return [n for n in [stem, stem, stem + '_x', stem + '_dir', stem + 's', stem.capitalize(), stem.upper(),
+                        'my_' + stem, stem[:2] + 'q'] if _ident_ok(n)]
+
+
+# ---- identifiers with letters outside ASCII (PEP 3131).  A stem gives names that BEGIN with such a
+# letter (étoile, étoile_x), END with one (café, my_café), have it only in the MIDDLE (naïve, café_x),
+# consist of nothing else (变量), change length under case mapping (straße -> STRASSE, İstanbul),
+# are not in NFKC normal form (µ_val, ﬁle: python itself identifies them with μ_val, file - the file
+# still SPELLS them the other way), or contain / end with combining marks and vowel signs
+# (cafe + U+0301, की), which are identifier characters but not `\w` for python's `re`.
+UNI_STEMS = ['étoile', 'café', 'naïve', 'über', 'ñu', 'straße', 'ßeta', 'zêta', 'ωmega', 'имя', 'đà',
+             '变量', '変数', 'İstanbul', 'ıx', 'µ_val', 'ﬁle', 'cafe\u0301', 'e\u0301toile', 'नाम', 'की', 'กา',
+             'prénomé', 'Åse', 'ǅx', 'æon', 'ºk']
+
+
+def nonascii_shape(name):
+    """where the letters outside ASCII stand: ascii / start / end / start+end / middle"""
+    if name.isascii():
+        return 'ascii'
+    a, b = not name[0].isascii(), not name[-1].isascii()
+    return 'start+end' if a and b else 'start' if a else 'end' if b else 'middle'
+
+
+def edge_not_word_char(word, complete):
+    """the search word begins (or, for an exact search, ends) with an identifier character that
+    python's `re` does not count as a word character (combining marks, vowel signs, U+00B7, ...)"""
+    return bool(word) and (re.match(r'\w', word[0]) is None
+                           or (not complete and re.match(r'\w', word[-1]) is None))
 
 
 def fs_stems_of(stem):
@@ -230,10 +285,11 @@ def mk_file(rng, name, pool, own=None, nblocks=None):
 
 # ----------------------------------------------------------------- trees
 
-def gen_clash_tree(rng, max_files=30, stubs=True):
+def gen_clash_tree(rng, max_files=30, stubs=True, stems=None):
     """project tree with colliding file names and identifiers; `stubs=False`: only .py files
     (the part of the domain the Lean model of _search_func covers)."""
-    stems = rng.sample(STEMS, rng.randint(1, 3))
+    if stems is None:
+        stems = rng.sample(STEMS, rng.randint(1, 3))
     pool = [i for s in stems for i in idents_of(s)]
     budget = [rng.randint(5, max_files)]
     state = {'clashes': 0}
@@ -246,7 +302,8 @@ def gen_clash_tree(rng, max_files=30, stubs=True):
             return []
         own = [modname]
         if rng.random() < 0.6:
-            own.append(rng.choice([modname + '_x', modname + '_dir', modname + 's', modname.capitalize()]))
+            own.append(rng.choice([n for n in [modname + '_x', modname + '_dir', modname + 's',
+                                               modname.capitalize()] if _ident_ok(n)]))
         state['clashes'] += 1
         return own
 
@@ -383,6 +440,100 @@ def module_names(t):
             if inits:
                 out.append((node['name'], inits, '/' in rel))
     return out
+
+
+# ----------------------------------------------------------------- file encodings
+
+# (codec, declaration line or None); the declaration is what PEP 263 reads in line 1 or 2
+ENCODINGS = [
+    ('utf-8', None), ('utf-8', None), ('utf-8', None),
+    ('utf-8-sig', None),                                    # UTF-8 with a byte order mark
+    ('utf-8', '# -*- coding: utf-8 -*-'),
+    ('utf-8-sig', '# coding=utf-8'),
+    ('latin-1', '# -*- coding: latin-1 -*-'),
+    ('iso-8859-15', '# coding: iso-8859-15'),
+    ('cp1252', '# vim: set fileencoding=cp1252 :'),
+    ('cp1251', '# -*- coding: cp1251 -*-'),
+    ('koi8-r', '# coding=koi8-r'),
+    ('iso-8859-7', '# -*- coding: iso-8859-7 -*-'),
+    ('gbk', '# -*- coding: gbk -*-'),
+    ('euc_jp', '# coding: euc_jp'),
+]
+NEWLINES = ['\n', '\n', '\n', '\r\n', '\r\n', '\r']
+
+
+def encode_file(rng, f):
+    """gives a generated source file an encoding (key 'enc': the codec its text is written with), a
+    matching declaration and a newline convention; `content` stays the TEXT of the file, `_defs`
+    is read off that text again"""
+    code = f['content']
+    fits = []
+    for enc, decl in ENCODINGS:
+        text = code if decl is None else decl + '\n' + code
+        try:
+            if text.encode(enc).decode(enc) == text:
+                fits.append((enc, decl))
+        except UnicodeError:
+            pass
+    nonutf = [x for x in fits if not x[0].startswith('utf-8')]
+    enc, decl = rng.choice(nonutf) if nonutf and rng.random() < 0.35 else rng.choice(fits)
+    if decl is not None:
+        code = ('#!/usr/bin/env python\n' if rng.random() < 0.2 else '') + decl + '\n' + code
+    nl = rng.choice(NEWLINES)
+    f['content'] = code.replace('\n', nl)
+    f['enc'] = enc
+    f['_defs'] = ast_defs(f['content'])
+    return f
+
+
+def gen_unicode_tree(rng, max_files=12, stubs=False):
+    """a clash tree over identifiers with letters outside ASCII; every source file gets an encoding"""
+    stems = rng.sample(UNI_STEMS, rng.randint(1, 2))
+    if rng.random() < 0.5:
+        stems.append(rng.choice(STEMS))
+    t, stems = gen_clash_tree(rng, max_files=max_files, stubs=stubs, stems=stems)
+    for _, f in src_files(t):
+        encode_file(rng, f)
+    for _, d in _all_dirs(t):
+        for f in d['files']:
+            f.setdefault('enc', 'utf-8')      # the other files (x.txt) mention the names as well
+    return t, stems
+
+
+def unicode_queries(rng, t, stems, k=4):
+    """identifiers of the tree by the place of their non-ASCII letters (one exact search per shape
+    that occurs at module level and one anywhere), prefixes that begin with / end after / stop
+    before such a letter, and module names"""
+    tops = sorted({d.name for _, f in src_files(t) for d in f['_defs'] if d.top})
+    anyw = sorted({d.name for _, f in src_files(t) for d in f['_defs']} - {'self', 'p1', 'p2', 'args'})
+    qs = []
+    for pool in (tops, anyw):
+        by = {}
+        for n in pool:
+            by.setdefault(nonascii_shape(n), []).append(n)
+        for shape in ('start', 'end', 'start+end', 'middle'):
+            if shape in by:
+                n = rng.choice(by[shape])
+                qs.append((n, False))
+                if len(n) > 1:
+                    cuts = [i for i in range(1, len(n)) if not n[i - 1].isascii() or not n[i].isascii()]
+                    qs.append((n[:rng.choice(cuts or [len(n) - 1])], True))
+    na = [n for n in anyw if not n.isascii()] or anyw or list(stems)
+    for _ in range(k):
+        n = rng.choice(na)
+        c = rng.random()
+        if c < 0.4:
+            qs.append((n, rng.random() < 0.3))
+        elif c < 0.7:
+            qs.append((n[:rng.randint(1, len(n))], True))
+        elif c < 0.8:
+            qs.append((rng.choice([n.swapcase(), n.lower(), n.upper(), n.casefold()]), rng.random() < 0.5))
+        else:
+            qs.append((rng.choice(['def ', 'class ', 'statement ', 'param ']) + n, rng.random() < 0.5))
+    mods = sorted({m for m, _, _ in module_names(t) if not m.isascii()})
+    for m in rng.sample(mods, min(len(mods), 1)):
+        qs.append((m, False))
+    return list(dict.fromkeys(qs))
 
 
 # ----------------------------------------------------------------- queries
